@@ -3,6 +3,11 @@
 # its property (quick), undoes the change straight afterwards.  Prints one line per seed.
 cd /verif
 ids="$@"; [ -z "$ids" ] && ids=$(ls seeded)
+# evidence / replay files written while /repo carries a seeded change must not survive
+bak=$(mktemp -d /var/tmp/sedverif_evbak.XXXXXX)
+cp -r evidence "$bak/evidence"; [ -d replays ] && cp -r replays "$bak/replays"
+restore() { rm -rf evidence replays; cp -r "$bak/evidence" evidence; [ -d "$bak/replays" ] && cp -r "$bak/replays" replays; rm -rf "$bak"; }
+trap restore EXIT
 for id in $ids; do
   prop=${id%%_*}
   [ -f seeded/$id/patch.diff ] || continue
